@@ -14,6 +14,11 @@ Bind:  spec -> code.  TLC enumerates assemblage x mineral order x phase fraction
        emitted by the spec; the integer measures are judged by TLC (Voigt.tla, Mode "measures").
        When an exact case disagrees, the spec's named deviation (tensor by position, F5) is used
        only to NAME the clause.
+       History (Voigt.tla Mode "history"): every action sequence SetTensor(phase, library) /
+       Average(instance, case) up to the spec's depth, plus long scripts, is replayed on ONE real
+       StiffnessTensors object mutated between calls, interleaved with the import-time default
+       argument and fresh pre-customised objects; every call must return the spec's value for the
+       library held AT CALL TIME.
 """
 import json
 
@@ -221,6 +226,91 @@ def replay_reject(b, e, chk):
     return out
 
 
+# ------------------------------------------------------------------ history: one object, mutated between calls
+class History:
+    def __init__(self, b, htables):
+        self.b = b
+        self.cases = htables["cases"]
+        self.minerals = {}
+        self.default_ok = any(lib["is_default"] for lib in b.libs)
+
+    def mins(self, k):
+        if k not in self.minerals:
+            c = self.cases[k - 1]
+            self.minerals[k] = [
+                self.b.mineral(m["phase"], m["n"], [[self.b.rots[r - 1] for r in snap] for snap in m["ori"]], [[qf(x) for x in snap] for snap in m["vol"]])
+                for m in c["mins"]
+            ]
+        return self.minerals[k]
+
+    def lib_array(self, l, phase):
+        lib = self.b.libs[l - 1]
+        return np.array(lib["ol"] if phase == "olivine" else lib["en"], dtype=float)
+
+    def replay(self, h, chk, stats=None):
+        """Replay one behaviour on one shared object; returns the number of failing calls."""
+        b = self.b
+        S = b.M.StiffnessTensors()  # holds the built-ins, like the spec's initial state
+        if not self.default_ok:
+            S.olivine, S.enstatite = self.lib_array(1, "olivine"), self.lib_array(1, "enstatite")
+        bad = 0
+        for n, st in enumerate(h["log"]):
+            if st["a"] == "set":
+                setattr(S, st["phase"], self.lib_array(st["lib"], st["phase"]))
+                continue
+            c = self.cases[st["k"] - 1]
+            inst = st["inst"]
+            if inst == "default" and not self.default_ok:
+                chk.skip("history step on the default argument: built-in stiffnesses differ from the spec's table")
+                continue
+            if inst == "shared":
+                tens = S
+            elif inst == "default":
+                tens = None
+            else:
+                tens = b.M.StiffnessTensors()
+                tens.olivine, tens.enstatite = self.lib_array(st["lib"], "olivine"), self.lib_array(st["lib"], "enstatite")
+            phi = [qf(x) for x in c["phi"]]
+            exp = np.array([[[qf(x) for x in row] for row in snap] for snap in st["avg"]])
+            try:
+                got = b.average(self.mins(st["k"]), c["asm"], phi, tens)
+                ok, rel = close(got, exp)
+                exc = None
+            except Exception as ex:  # noqa: BLE001
+                got, ok, rel, exc = None, False, float("inf"), type(ex).__name__
+            key = inst
+            if stats is not None:
+                d = stats.setdefault(key, dict(calls=0, failed=0))
+                d["calls"] += 1
+            if ok:
+                chk.maximum("history_rel_dev_of_passing_calls", rel)
+                continue
+            bad += 1
+            if stats is not None:
+                stats[key]["failed"] += 1
+            # name the clause: does an object that was never used before, holding the same arrays, give the value?
+            clause = "weighted-sum-value"
+            if exc is None and inst in ("shared", "default"):
+                ref = b.M.StiffnessTensors()
+                if inst == "shared":
+                    ref.olivine, ref.enstatite = np.array(S.olivine, dtype=float), np.array(S.enstatite, dtype=float)
+                try:
+                    if close(b.average(self.mins(st["k"]), c["asm"], phi, ref), exp)[0]:
+                        clause = "tensors-at-call-time"
+                except Exception:  # noqa: BLE001
+                    pass
+            before = [(x["a"], x["inst"], x["phase"], x["lib"], x["k"]) for x in h["log"][:n]]
+            chk.violation(
+                dict(clause=clause, instance=inst) if exc is None else dict(clause="valid-input-raised", instance=inst, exc=exc),
+                f"history: call {n + 1} of a sequence on one StiffnessTensors object (instance '{inst}', case {st['k']}, assemblage {asm_name(c['asm'])}) "
+                + (f"raised {exc}" if exc else f"differs by {rel:.3g} relative from the average under the tensors held at call time")
+                + ("; a never-used object holding the same arrays gives the expected value, so the result depends on the object's history" if clause == "tensors-at-call-time" else "")
+                + f"; earlier steps (action, instance, phase, library, case): {before}",
+                dict(kind="history", behaviour=h, htables=dict(cases=self.cases), step=n + 1, got=None if got is None else np.asarray(got).tolist()),
+            )
+        return bad
+
+
 # ------------------------------------------------------------------ seeded float scenarios
 CONFIGS = [
     (["olivine"], ["olivine"]),
@@ -398,7 +488,48 @@ def main(tier):
     else:
         chk.skip("rejection-table negative control: the code agrees with no table entry")
 
-    # ---- 5. seeded float scenarios, judged by the spec
+    # ---- 5. history machine: the tensors are read from the passed object at call time
+    hres = run_tlc("Voigt", "VoigtHistory" if quick else "VoigtHistory_thorough", workers=8 if quick else 16, timeout=300 if quick else 900)
+    chk.add_tlc(
+        "VoigtHistory" if quick else "VoigtHistory_thorough",
+        hres,
+        "all sequences of SetTensor(phase, library) / Average(shared | default | fresh instance, case) up to the depth + 3 long scripts; "
+        "lemmas: state = last logged assignment, expected value from the library current at the call, aligned grain returns the current tensor, default never changes",
+    )
+    ht = parse_printed_json(hres.output, "HTABLES")
+    behs = parse_printed_json(hres.output, "HIST")
+    if len(ht) != 1:
+        raise MachineryError(f"expected one HTABLES record, got {len(ht)}")
+    n_full = 12 ** (ht[0]["depth"] - 1) * 6  # 12 actions per step, 6 of them calls
+    if len(behs) != n_full + ht[0]["scripts"]:
+        raise MachineryError(f"history spec emitted {len(behs)} behaviours, expected {n_full} + {ht[0]['scripts']}")
+    hist = History(b, ht[0])
+    hstats, clean = {}, []
+    for h in behs:
+        nbad = hist.replay(h, chk, hstats)
+        chk.count(("hist", json.dumps([(x["a"], x["inst"], x["phase"], x["lib"], x["k"]) for x in h["log"]])))
+        if nbad == 0:
+            clean.append(h)
+    chk.cov["history_calls_by_instance"] = hstats
+    chk.cov["traces_validated_against_impl"] += len(behs)
+    print("C10 history replay (one mutated object): " + "; ".join(f"{k}: {v['calls'] - v['failed']}/{v['calls']} calls ok" for k, v in sorted(hstats.items())))
+    s1 = next(h for h in behs if h["script"] == 1)
+    chk.sample(dict(kind="history-behaviour", steps=[(x["a"], x["inst"], x["phase"], x["lib"], x["k"]) for x in s1["log"]], expected_C11=[x["avg"][0][0][0] for x in s1["log"] if x["a"] == "avg"]))
+    # negative control: a "stale" expected value (the one from before the assignment) must be flagged
+    cand = next((h for h in clean if h["script"] == 1), None) or next(
+        (h for h in clean if [x["a"] for x in h["log"][:3]] == ["avg", "set", "avg"] and h["log"][0]["k"] == h["log"][2]["k"] and h["log"][0]["inst"] == h["log"][2]["inst"] == "shared" and h["log"][0]["avg"] != h["log"][2]["avg"]),
+        None,
+    )
+    if cand is not None:
+        stale = json.loads(json.dumps(cand))
+        stale["log"][2]["avg"] = stale["log"][0]["avg"]
+        probe = Check("C10", tier, dry=True)
+        hist.replay(stale, probe)
+        chk.control("stale-expected-value-flagged-by-history-replayer", len(probe.violations) >= 1, "expected value of call 3 replaced by the one from before the assignment")
+    else:
+        chk.skip("history negative control: no behaviour replays cleanly on this tree")
+
+    # ---- 6. seeded float scenarios, judged by the spec
     nsc = 60 if quick else 600
     events, floats = [], {}
     for sid in range(nsc):
@@ -449,7 +580,7 @@ def main(tier):
         rule="exact cases: every (assemblage, mineral-list order, phase fractions, tensor library, grain count, snapshot count, texture number, "
         "volume vector) of the grid enumerated by Voigt.tla plus the aligned-grain cases, distinct by content; rejection table: every shape "
         "combination of one or two minerals; float scenarios: one per (sid, VERIF_SEED), 6 assemblage/order classes x built-in/custom tensors x "
-        "1-2 snapshots x normalised or not",
+        "1-2 snapshots x normalised or not; history: every action sequence of the Voigt.tla history machine up to its depth that ends in a call, plus the scripts, distinct by step sequence",
         exhaustive=False,
         trusted=["numpy einsum / scipy Rotation for the float scenarios", "harness/evalterm.py evaluating the functionals emitted by Voigt.tla"],
     )
@@ -466,7 +597,9 @@ def replay(obj):
         ev, m = measure_scenario(b, r["sid"], r["seed"])
         print(json.dumps(dict(event=ev, measures=m), indent=1))
         return 1 if any(v > REL_TOL for v in m.values()) else 0
-    if r.get("kind") == "case":
+    if r.get("kind") == "history":
+        print("failing calls:", History(b, r["htables"]).replay(r["behaviour"], probe))
+    elif r.get("kind") == "case":
         print("outcome:", replay_case(b, r["case"], probe, 0 if r.get("default_argument") else 1))
     elif r.get("kind") == "reject":
         print("outcome:", replay_reject(b, r["entry"], probe))
